@@ -1,5 +1,6 @@
 import GolibsVerif.Driver.Util
 import GolibsVerif.Model.C18
+import GolibsVerif.Model.C18Fine
 
 /-!
 Line protocol of C18 (see `harness/c18.go` for the Go side):
@@ -14,6 +15,12 @@ Line protocol of C18 (see `harness/c18.go` for the Go side):
   Shutdown, `l<e>` the loop's refresh returns error code e (0 = nil), `f<e>` the final refresh
   returns e; `<reps>` (how often the harness repeats the scenario) is ignored by the model.
   Answer: the outputs of `Start` and of every event, groups separated by `|`.
+* `C18.fine <ros> <steps> <reps>` — statement-level scripts on the fine-grained system of
+  `Model/C18Fine.lean` (`runScript`).  `<steps>`: `tick`, `untL<d>` / `untL<d>!`, `newL`, `refL<e>`,
+  `hdlL`, `shut`, `newF`, `refF<e>` (see `harness/c18fine.go`); `<reps>` is ignored by the model.
+  Answer: the call / return events of the callbacks and of `Shutdown` (the model's internal events
+  — select, re-check, `close(done)`, timer delivery — are not printed), one group for `Start`, one
+  per step, one for the final drain, separated by `|`.
 -/
 
 namespace GolibsVerif.Driver.C18
@@ -88,10 +95,63 @@ def rw (args : List String) : String :=
     | _, _ => "bad-op"
   | _ => "bad-op"
 
+def parseCmd (s : String) : Option Fine.Cmd :=
+  if s = "tick" then some .tick
+  else if s = "newL" then some .newL
+  else if s = "hdlL" then some .hdlL
+  else if s = "shut" then some .shut
+  else if s = "newF" then some .newF
+  else if s.startsWith "untL" then
+    let r := (s.drop 4).toString
+    if r.endsWith "!" then (r.dropEnd 1).toNat?.map (Fine.Cmd.untL · true) else r.toNat?.map (Fine.Cmd.untL · false)
+  else if s.startsWith "refL" then (s.drop 4).toNat?.map Fine.Cmd.refL
+  else if s.startsWith "refF" then (s.drop 4).toNat?.map Fine.Cmd.refF
+  else none
+
+def showCaller : Caller → String
+  | .loop => "L"
+  | .shutdown => "F"
+
+/-- the label of a `Refresh` call is read off the context it got -/
+def showRefreshCtx : Ctx → String
+  | .cons .start => "L"
+  | .cons .shutdown => "F"
+  | _ => "?"
+
+/-- observable events only: calls and returns of the callbacks and of `Shutdown` -/
+def showFEv : Fine.FEv → Option String
+  | .untilCall => some "Uc"
+  | .untilRet d => some s!"Ur{d}"
+  | .after d _ => some s!"A{d}"
+  | .newCall c => some s!"Nc:{showCaller c}"
+  | .newRet c => some s!"Nr:{showCaller c}"
+  | .refreshCall _ ctx => some s!"Rc:{showRefreshCtx ctx}"
+  | .refreshRet c e => some s!"Rr:{showCaller c}:{e}"
+  | .handleCall e => some s!"Hc{e}"
+  | .handleRet => some "Hr"
+  | .shutCall => some "Sc"
+  | .shutRet e => some s!"Sr{e}"
+  | .fire | .selTimer | .selDone | .recheckOpen | .recheckClosed | .closeDone => none
+
+def showFGroup (g : List Fine.FEv) : String :=
+  let xs := g.filterMap showFEv
+  if xs.isEmpty then "-" else joinWith "," xs
+
+def fine (args : List String) : String :=
+  match args with
+  | [ros, steps, _reps] =>
+    match allSome ((listArg steps).map parseCmd) with
+    | some cs =>
+      if ros = "0" ∨ ros = "1" then joinWith "|" ((Fine.runScript (ros = "1") cs).map showFGroup)
+      else "bad-op"
+    | none => "bad-op"
+  | _ => "bad-op"
+
 def handle (op : String) (args : List String) : Option String :=
   match op with
   | "C18.sh" => some (sh args)
   | "C18.rw" => some (rw args)
+  | "C18.fine" => some (fine args)
   | _ => none
 
 end GolibsVerif.Driver.C18
